@@ -196,7 +196,10 @@ class Traffic:
         return (pgn, 6, src, 255, (x & ((1 << (8 * n)) - 1)).to_bytes(n, "little"))
 
     def claim(self, src, manu="garmin", unique=None):
-        name = claim_name(unique if unique is not None else self.rnd.randrange(1, 1 << 21), MANU[manu], func=self.rnd.choice([130, 140, 150]), cls=self.rnd.choice([25, 30, 35, 60, 75]))
+        r = self.rnd
+        name = claim_name(unique if unique is not None else r.choice([r.randrange(1, 1 << 21), (1 << 21) - 1, 0]), MANU[manu], func=r.choice([130, 140, 150]), cls=r.choice([25, 30, 35, 60, 75]),
+                          inst=r.choice([0, 0, 1, 7, 8, 15, 0xFF, 0xF7, 0xF0 | 6]),       # all-ones sub-fields are data; 0xF0|6 = reserved upper part 30: the generated decoder rejects the claim
+                          sysinst=r.choice([0, 0, 5, 13, 15, 14]))                         # 14 is a reserved code: rejected
         return (60928, 6, src, 255, name.to_bytes(8, "little"))
 
     def junk(self, src):
@@ -391,6 +394,10 @@ def monitor_identity(ctx, n_hist=6, steps=60):
     rnd = random.Random(ctx["seed"] + 63)
     n = 0
     names = {v: k for k, v in MANU.items()}
+    names_db = {}
+    for e in db.db["LookupEnumerations"]:
+        if e["Name"] == "MANUFACTURER_CODE":
+            names_db = {v["Value"]: v["Name"] for v in e["EnumValues"]}
     for cfg in CONFIGS:
         if cfg.get("exclude") and cfg.get("include"):
             continue
@@ -412,7 +419,16 @@ def monitor_identity(ctx, n_hist=6, steps=60):
                 exp = ident.get(src)
                 got = m.source_iso_name
                 bad = None
-                if (exp is None) != (got is None) or (exp is not None and canon_iso(exp) != canon_iso(got)):
+                if got is not None:
+                    # the identity's numbers are bits of the NAME, the manufacturer is the database's name for bits 21..31
+                    nm = got.name
+                    manu_name = names_db.get((nm >> 21) & 0x7FF)
+                    if (got.unique_number, got.device_instance, got.system_instance, got.manufacturer_code) != (nm & 0x1FFFFF, (nm >> 32) & 0xFF, (nm >> 56) & 0xF, manu_name):
+                        bad = (f"identity of source {src} is (unique {got.unique_number}, instance {got.device_instance}, system {got.system_instance}, {got.manufacturer_code}); "
+                               f"its NAME {nm:#018x} says ({nm & 0x1FFFFF}, {(nm >> 32) & 0xFF}, {(nm >> 56) & 0xF}, {manu_name})")
+                if bad:
+                    pass
+                elif (exp is None) != (got is None) or (exp is not None and canon_iso(exp) != canon_iso(got)):
                     bad = f"message from source {src} carries identity {canon_iso(got)}, the latest claim of that source gives {canon_iso(exp)}"
                 elif pgn != 60928 and exp is not None:
                     manu = (exp.manufacturer_code or "\0").lower()
